@@ -58,7 +58,7 @@ func blank(e, uri string, id int) event {
 }
 
 type trace struct {
-	Ev     []event `json:"ev"`
+	Ev      []event `json:"ev"`
 	script  []op
 	note    string
 	skipped bool
